@@ -320,6 +320,31 @@ func C13(c *Ctx) {
 			}
 		}
 	}
+	// who may write the mark: nothing outside ParsePatterns (and its helpers) assigns the PatternSyntax of an
+	// existing spec — a later value would declare parsed patterns to be source text again
+	{
+		var bad []string
+		for _, f := range c.P.AllFuncs {
+			if !prog.InRepo(f) || inPC[f] {
+				continue
+			}
+			top := f
+			for top.Parent() != nil {
+				top = top.Parent()
+			}
+			if inPC[top] {
+				continue
+			}
+			for _, st := range storesTo(f, "Spec", "PatternSyntax") {
+				if _, _, base, _ := ssau.FieldOf(st.Addr); localFresh(base) {
+					continue // a Spec value built here
+				}
+				bad = append(bad, fname(f)+" ("+c.pos(st)+")")
+			}
+		}
+		sort.Strings(bad)
+		c.R.Check(len(bad) == 0, "C13-R1", "PatternSyntax of an existing spec is assigned only by ParsePatterns", c.P.Pos(parse.Pos()), "no other store in the repository", "the record that patterns are already parsed can be overwritten: "+strings.Join(bad, ", ")+" — a spec written out (or compiled again) afterwards has its parsed patterns parsed a second time")
+	}
 	c.R.Check(okMark, "C13-R1", "ParsePatterns: parsed form is recorded", c.P.Pos(parse.Pos()), "after parsing, PatternSyntax is set to a pass-through value on every successful exit", "after a successful parse nothing records that patterns are already parsed: a second Compile, or a Compile after serialising and reloading, parses the parsed patterns again")
 
 	// ---------------------------------------------------------------- R2
